@@ -447,6 +447,9 @@ Proof.
     apply QI_apply_err_st; auto. cbn [fst]. sq.
   - (* LHeartbeat *)
     destruct (get_conn s c); [|exact H]. destruct (h =? 0); [exact H|apply QI_conn_close; auto].
+  - (* LRestart *)
+    unfold restart. cbn [fst]. intros qn qu Hin. cbn [queues] in Hin. apply in_map_iff in Hin.
+    destruct Hin as ([qn0 qu0] & E & _). inversion E; subst. unfold qinv, new_queue. cbn. repeat split; congruence.
 Qed.
 
 Lemma QI_init cfg : QI (init cfg).
